@@ -9,39 +9,69 @@ import (
 	"github.com/voedger/voedger/pkg/istorage"
 )
 
-// schedCase: one writer (Puts versions 1..Puts of one key) and readers (Gets of that key) over the
-// real cache in front of mem; Sched is the interleaving, one entry per model step.
+// schedCase: one writer running a program of writes on one key (Put v | Ins v | Del) and readers
+// running Get / TTLGet over the real cache in front of mem; Sched is the interleaving, one entry
+// per model step.  Init < 0 means the key is absent at the start.
 type schedCase struct {
-	Kind    string   `json:"kind"` // "sched"
-	Puts    int      `json:"puts"`
-	Readers []int    `json:"readers"`
-	Sched   []string `json:"sched"` // "W" | "R0" | "R1" ...
-	Obs     []string `json:"observed,omitempty"`
+	Kind    string     `json:"kind"` // "sched"
+	Init    int        `json:"init"`
+	Prog    []string   `json:"prog"`    // "put:3" "ins:1" "del"
+	Readers [][]string `json:"readers"` // "get" | "ttlget"
+	Sched   []string   `json:"sched"`   // "W" | "R0" | "R1" ...
+	Obs     []string   `json:"observed,omitempty"`
+	// legacy fields of older corpus files
+	Puts       int   `json:"puts,omitempty"`
+	OldReaders []int `json:"old_readers,omitempty"`
 }
 
 var schedPK, schedCC = []byte("k1"), []byte("c")
 
+func optN(v int) string {
+	if v < 0 {
+		return "None"
+	}
+	return fmt.Sprintf("(Some %d)", v)
+}
+
+func (sc *schedCase) normalize() {
+	if len(sc.Prog) == 0 && sc.Puts > 0 { // old format: Puts of 1..n over initial value 0, readers doing Gets
+		sc.Init = 0
+		for i := 1; i <= sc.Puts; i++ {
+			sc.Prog = append(sc.Prog, fmt.Sprintf("put:%d", i))
+		}
+	}
+}
+
 func runSched(sc *schedCase) (kit.Case, error) {
+	sc.normalize()
 	clock := kit.NewClock()
 	mem, cleanup, err := kit.NewBackend("mem", clock)
 	if err != nil {
 		return kit.Case{}, err
 	}
 	defer cleanup()
-	if err := mem.Put(schedPK, schedCC, []byte{0}); err != nil { // version 0, not known to the cache
-		return kit.Case{}, err
+	if sc.Init >= 0 { // present before the run, not known to the cache
+		if err := mem.Put(schedPK, schedCC, []byte{byte(sc.Init)}); err != nil {
+			return kit.Case{}, err
+		}
 	}
 	sched := kit.NewSched()
 	wrap := &kit.Wrap{Inner: mem}
+	readOp := func(op string) bool { return op == "Get" || op == "TTLGet" }
+	writeOp := func(op string) bool { return op == "Put" || op == "InsertIfNotExists" || op == "CompareAndDelete" }
 	wrap.Before = func(c *kit.Call) kit.Verdict {
-		if p := sched.Current(); p != nil && c.Op == "Get" {
-			p.Yield("before-get")
+		if p := sched.Current(); p != nil && readOp(c.Op) {
+			p.Yield("before-read")
 		}
 		return kit.Verdict{}
 	}
 	wrap.After = func(c *kit.Call) {
-		if p := sched.Current(); p != nil && (c.Op == "Get" || c.Op == "Put") {
-			p.Yield("after-" + strings.ToLower(c.Op))
+		if p := sched.Current(); p != nil && (readOp(c.Op) || writeOp(c.Op)) {
+			if readOp(c.Op) {
+				p.Yield("after-read")
+			} else {
+				p.Yield("after-write")
+			}
 		}
 	}
 	var cached istorage.IAppStorage
@@ -49,30 +79,60 @@ func runSched(sc *schedCase) (kit.Case, error) {
 		return kit.Case{}, err
 	}
 	procs := map[string]*kit.Proc{}
-	last := map[string]int{} // last Get result per reader
+	last := map[string]int{} // last read result per reader (-1 = not found)
+	var werr error
 	procs["W"] = sched.Go("W", func(p *kit.Proc) {
-		for i := 1; i <= sc.Puts; i++ {
-			if err := cached.Put(schedPK, schedCC, []byte{byte(i)}); err != nil {
-				panic(err)
+		cur := sc.Init
+		for i, w := range sc.Prog {
+			var v int
+			switch {
+			case strings.HasPrefix(w, "put:"):
+				fmt.Sscanf(w, "put:%d", &v)
+				werr = cached.Put(schedPK, schedCC, []byte{byte(v)})
+				cur = v
+			case strings.HasPrefix(w, "ins:"):
+				fmt.Sscanf(w, "ins:%d", &v)
+				ok, e := cached.InsertIfNotExists(schedPK, schedCC, []byte{byte(v)}, 0)
+				if e != nil || !ok {
+					werr = fmt.Errorf("insert refused (%v, %v): the program must only contain writes that succeed", ok, e)
+				}
+				cur = v
+			case w == "del":
+				ok, e := cached.CompareAndDelete(schedPK, schedCC, []byte{byte(cur)})
+				if e != nil || !ok {
+					werr = fmt.Errorf("delete refused (%v, %v)", ok, e)
+				}
+				cur = -1
 			}
-			if i < sc.Puts {
+			if i < len(sc.Prog)-1 {
 				p.Yield("op")
 			}
 		}
 	})
-	for ri, gets := range sc.Readers {
+	for ri, ops := range sc.Readers {
 		name := fmt.Sprintf("R%d", ri)
-		g := gets
+		rops := ops
 		procs[name] = sched.Go(name, func(p *kit.Proc) {
-			for i := 0; i < g; i++ {
+			for i, o := range rops {
 				var data []byte
-				ok, err := cached.Get(schedPK, schedCC, &data)
-				if err != nil || !ok || len(data) != 1 {
-					last[name] = -1
+				var ok bool
+				var err error
+				if o == "ttlget" {
+					ok, err = cached.TTLGet(schedPK, schedCC, &data)
 				} else {
-					last[name] = int(data[0])
+					ok, err = cached.Get(schedPK, schedCC, &data)
 				}
-				if i < g-1 {
+				switch {
+				case err != nil:
+					last[name] = -2
+				case !ok:
+					last[name] = -1
+				case len(data) == 1:
+					last[name] = int(data[0])
+				default:
+					last[name] = -2
+				}
+				if i < len(rops)-1 {
 					p.Yield("op")
 				}
 			}
@@ -81,10 +141,15 @@ func runSched(sc *schedCase) (kit.Case, error) {
 	completed := 0
 	var obs, ps []string
 	sc.Obs = nil
+	skipped := 0
 	for _, who := range sc.Sched {
 		p := procs[who]
 		if p == nil {
 			return kit.Case{}, fmt.Errorf("unknown process %q", who)
+		}
+		if p.Done {
+			skipped++ // a stored schedule may be longer than what the current code needs
+			continue
 		}
 		pt, err := p.Step()
 		if err != nil {
@@ -92,20 +157,20 @@ func runSched(sc *schedCase) (kit.Case, error) {
 		}
 		var o string
 		switch {
-		case who == "W" && pt == "after-put":
+		case who == "W" && pt == "after-write":
 			o = "SNone"
 		case who == "W":
 			completed++
-			o = "SPutDone"
-		case pt == "before-get":
+			o = "SWDone"
+		case pt == "before-read":
 			o = fmt.Sprintf("SGetStart %d", completed)
-		case pt == "after-get":
+		case pt == "after-read":
 			o = "SNone"
-		default: // a Get returned: from the cache within one step, or after its fill
-			if len(obs) > 0 && lastStepOf(ps, obs, who) == "SNone" {
-				o = fmt.Sprintf("SGetDone %d", last[who])
+		default: // a read returned: from the cache within one step, or after its fill
+			if lastStepOf(ps, obs, who) == "SNone" {
+				o = "SGetDone " + optN(last[who])
 			} else {
-				o = fmt.Sprintf("SGetHit %d %d", completed, last[who])
+				o = fmt.Sprintf("SGetHit %d %s", completed, optN(last[who]))
 			}
 		}
 		obs = append(obs, o)
@@ -124,26 +189,53 @@ func runSched(sc *schedCase) (kit.Case, error) {
 			}
 		}
 	}
-	rd := make([]string, len(sc.Readers))
-	for i, g := range sc.Readers {
-		rd[i] = fmt.Sprint(g)
+	if werr != nil {
+		return kit.Case{}, werr
+	}
+	prog := make([]string, len(sc.Prog))
+	hasDel := false
+	for i, w := range sc.Prog {
+		var v int
+		switch {
+		case strings.HasPrefix(w, "put:"):
+			fmt.Sscanf(w, "put:%d", &v)
+			prog[i] = fmt.Sprintf("WPut %d", v)
+		case strings.HasPrefix(w, "ins:"):
+			fmt.Sscanf(w, "ins:%d", &v)
+			prog[i] = fmt.Sprintf("WIns %d", v)
+		default:
+			prog[i] = "WDel"
+			hasDel = true
+		}
+	}
+	rds := make([]string, len(sc.Readers))
+	for i, ops := range sc.Readers {
+		items := make([]string, len(ops))
+		for j, o := range ops {
+			if o == "ttlget" {
+				items[j] = "OpTTLGet"
+			} else {
+				items[j] = "OpGet"
+			}
+		}
+		rds[i] = kit.List(items)
 	}
 	sc.Kind = "sched"
-	return kit.Case{
-		Coq:        fmt.Sprintf("TSched (mkCTrace %d%%nat %s %s %s)", sc.Puts, natList(sc.Readers), kit.List(ps), kit.List(obs)),
-		Key:        fmt.Sprintf("sched|%d|%v|%s", sc.Puts, sc.Readers, strings.Join(sc.Sched, "")),
-		Nontrivial: strings.Contains(strings.Join(obs, " "), "SGetStart") && strings.Contains(strings.Join(obs, " "), "SPutDone"),
-		Desc:       sc,
-		Tags:       []string{"sched", fmt.Sprintf("readers:%d", len(sc.Readers))},
-	}, nil
-}
-
-func natList(xs []int) string {
-	items := make([]string, len(xs))
-	for i, x := range xs {
-		items[i] = fmt.Sprintf("%d%%nat", x)
+	tags := []string{"sched", fmt.Sprintf("readers:%d", len(sc.Readers))}
+	if hasDel {
+		tags = append(tags, "F8b:delete-in-writer-program")
 	}
-	return kit.List(items)
+	if sc.Init < 0 {
+		tags = append(tags, "init:absent")
+	}
+	joined := strings.Join(obs, " ")
+	return kit.Case{
+		Coq:        fmt.Sprintf("TSched (mkCTrace %s %s %s %s %s)", optN(sc.Init), kit.List(prog), kit.List(rds), kit.List(ps), kit.List(obs)),
+		Key:        fmt.Sprintf("sched|%d|%v|%v|%s", sc.Init, sc.Prog, sc.Readers, strings.Join(sc.Sched, "")),
+		Nontrivial: strings.Contains(joined, "SGetStart") && strings.Contains(joined, "SWDone"),
+		Desc:       sc,
+		Tags:       tags,
+	}, nil
 }
 
 // lastStepOf: the observation of the most recent earlier step of process who
@@ -160,21 +252,21 @@ func lastStepOf(ps, obs []string, who string) string {
 	return ""
 }
 
-// stepsOf: how many model steps a process needs at most (each Put: 2; each Get: 1 or 3)
-func genSchedule(r *kit.Rng, puts int, readers []int) []string {
-	// simulate the step structure abstractly: writer needs 2 steps per Put; a reader's Get needs
-	// 1 step on a hit and 3 on a miss; whether a Get hits depends on the cache, which holds a value
-	// after the first completed Put or fill. The harness tolerates surplus entries by regenerating:
-	// here we track the same abstract state as the model.
-	cacheSet := false
-	wLeft, wMid := puts, false
+// genSchedule draws an interleaving while tracking the abstract control state of the model
+// (who is between which steps, whether the key is cached) so that every entry is a possible step
+func genSchedule(r *kit.Rng, sc *schedCase) []string {
+	cached := false
+	wLeft, wMid := len(sc.Prog), false
+	wi := 0
 	type rs struct {
 		left int
 		pc   int
+		op   string
+		idx  int
 	}
-	rds := make([]rs, len(readers))
-	for i, g := range readers {
-		rds[i] = rs{left: g}
+	rds := make([]rs, len(sc.Readers))
+	for i, g := range sc.Readers {
+		rds[i] = rs{left: len(g)}
 	}
 	var out []string
 	for {
@@ -194,9 +286,11 @@ func genSchedule(r *kit.Rng, puts int, readers []int) []string {
 		out = append(out, who)
 		if who == "W" {
 			if wMid {
-				wMid, cacheSet = false, true
+				wMid = false
+				cached = sc.Prog[wi-1] != "del"
 			} else {
 				wLeft--
+				wi++
 				wMid = true
 			}
 			continue
@@ -206,14 +300,19 @@ func genSchedule(r *kit.Rng, puts int, readers []int) []string {
 		x := &rds[i]
 		switch x.pc {
 		case 0:
+			x.op = sc.Readers[i][x.idx]
+			x.idx++
 			x.left--
-			if !cacheSet {
+			if !cached {
 				x.pc = 1
 			}
 		case 1:
 			x.pc = 2
 		case 2:
-			x.pc, cacheSet = 0, true
+			x.pc = 0
+			// a fill makes the key cached unless it is a TTLGet that found the row; whether it found
+			// it is not tracked here: assume "maybe cached" conservatively by re-checking on the next step
+			cached = cached || x.op == "get"
 		}
 	}
 }
